@@ -22,7 +22,45 @@ func NonCanonical(r *rand.Rand) []byte {
 	n := 1 + r.IntN(4)
 	for i := 0; i < n; i++ {
 		var o []byte
-		switch r.IntN(18) {
+		switch r.IntN(21) {
+		case 18: // vendor options of the vendors whose formats exist, sub-options numbered from 1 with plausible payloads
+			en := []uint32{4491, 9, 311, 2636, 30065, 1271, 42623}[r.IntN(7)]
+			v := be32(en)
+			for k := 1 + r.IntN(4); k > 0; k-- {
+				sc := 1 + r.IntN(40)
+				var d []byte
+				switch r.IntN(3) {
+				case 0:
+					d = gen4.Bytes(r, 16*(1+r.IntN(2))) // address lists
+				case 1:
+					d = []byte("value-" + string(rune('a'+r.IntN(26))))
+				default:
+					d = gen4.Bytes(r, r.IntN(9))
+				}
+				v = append(v, tlv(sc, d)...)
+			}
+			o = tlv(17, v)
+		case 19, 20: // strings that end in NUL octets (C programs send them), inner NULs, a lone NUL
+			str := []byte("tftp://[2001:db8::1]/boot.efi")
+			switch r.IntN(4) {
+			case 0:
+				str = append(str, 0)
+			case 1:
+				str = append(str, 0, 0)
+			case 2:
+				str = append(str[:7], append([]byte{0}, str[7:]...)...)
+				str = append(str, 0, 0, 0)
+			default:
+				str = []byte{0}
+			}
+			switch r.IntN(3) {
+			case 0:
+				o = tlv(59, str)
+			case 1:
+				o = tlv(60, append([]byte{byte(len(str) >> 8), byte(len(str))}, str...))
+			default:
+				o = tlv(15, append([]byte{byte(len(str) >> 8), byte(len(str))}, str...))
+			}
 		case 16, 17: // identifiers written by hand: every DUID kind with the hardware types and address lengths that exist
 			pairs := [][2]int{{1, 6}, {6, 6}, {27, 8}, {32, 20}, {32, 8}, {24, 8}, {1, 20}, {32, 19}, {32, 21}, {0, 0}, {65535, 3}}
 			pr := pairs[r.IntN(len(pairs))]
@@ -145,3 +183,41 @@ func NonCanonical(r *rand.Rand) []byte {
 	return msg
 }
 
+
+// Untyped builds a message (bare or relayed) that carries option `code` with an arbitrary payload of 0..80 octets, for
+// option codes the library has a typed parser for but gen6 has no generator: the harness cannot know the layout, so
+// it offers payloads of every small length and lets the library decide which it accepts (monitors that do not need a
+// reference verdict -- ownership of memory, purity, fixpoint, crash freedom -- then run on the accepted ones).
+func Untyped(r *rand.Rand, code int) []byte {
+	n := r.IntN(81)
+	v := gen4.Bytes(r, n)
+	switch r.IntN(4) {
+	case 0:
+		for i := range v {
+			v[i] = byte(r.UintN(4))
+		}
+	case 1:
+		clear(v)
+	}
+	msg := append([]byte{byte(1 + r.UintN(11)), 1, 2, 3}, tlv(code, v)...)
+	if r.IntN(2) == 0 {
+		msg = append(msg, tlv(8, []byte{0, 1})...)
+	}
+	for k := r.IntN(3); k > 0; k-- {
+		h := make([]byte, 34)
+		h[0] = byte(12 + r.UintN(2))
+		copy(h[2:], gen4.Bytes(r, 32))
+		msg = append(h, tlv(9, msg)...)
+	}
+	return msg
+}
+
+// HasGenerator reports whether gen6 has a typed generator for the code.
+func HasGenerator(code int) bool {
+	for _, c := range AllCodes {
+		if c == code {
+			return true
+		}
+	}
+	return false
+}
